@@ -410,6 +410,11 @@ def _hostile_ids_world():
     w = json.loads(json.dumps(world()).replace("Human_1", "Human:1").replace("Human_2", "a#b:c"))
     return w
 CASES["regress/KF-C01-36.json"] = exec_case("C01", "gateway-errors", '{ getHumans { name phone friends { nick phone } best { phone } } }', w=_hostile_ids_world())
+_JSONW = {"services": [{"url": "http://svc-0.test/graphql", "sdl": "scalar JSON\ninput Wrap {\n  meta: JSON\n  n: Int\n}\ntype Query {\n  f(arg: JSON): String\n  h(w: Wrap): String\n}\n"}],
+          "union_sdl": "scalar JSON\ninput Wrap {\n  meta: JSON\n  n: Int\n}\ntype Query {\n  f(arg: JSON): String\n  h(w: Wrap): String\n}\n",
+          "store": {"entities": {}, "roots": {"Query.f": "x", "Query.h": "y"}}}
+CASES["regress/KF-C07-6.json"] = exec_case("C01", "process-death", 'query($v: Int) { f(arg: [$v]) }', {"v": 1}, w=_JSONW)
+CASES["regress/KF-C07-6b.json"] = exec_case("C01", "gateway-errors", 'query($v: Int, $s: String = "d") { f(arg: {a: [$v, {b: $s}]}) h(w: {meta: {k: [$v]}, n: $v}) }', {"v": 2}, w=_JSONW)
 CASES["regress/KF-C01-27.json"] = exec_case("C01", "gateway-errors", '{ __typename getHumans { name } }')
 CASES["regress/KF-C01-27b.json"] = exec_case("C01", "gateway-errors", '{ t: __typename }')
 CASES["regress/KF-C01-27c.json"] = exec_case("C01", "data-mismatch", '{ __schema { queryType { name } } getHumans { name phone } m: __type(name: "Human") { kind name } }')
